@@ -2498,7 +2498,7 @@ impl DbInner {
 		{
 			let queue = self.commit_queue.lock();
 			h.tag("commit_queue");
-			h.u64(queue.record_id);
+			d.commit_id_counter = queue.record_id;
 			h.u64(queue.bytes as u64);
 			d.commit_queue_len = queue.commits.len();
 			d.commit_queue_bytes = queue.bytes;
@@ -2629,6 +2629,9 @@ impl DbInner {
 		for c in self.columns.iter() {
 			c.verif_digest(&mut h, &mut d);
 		}
+		// everything except the commit id counter (a rejected commit may consume an id)
+		d.rest_hash = h.finish();
+		h.u64(d.commit_id_counter);
 		d.hash = h.finish();
 		d
 	}
